@@ -354,38 +354,97 @@ def rule_failfields(chk):
             good="start fields are not stored on the action", fail="_start stores its fields on the action (they would leak into the end message)")
 
 
-def rule_mro(chk):
+def _lookup_funcs(chk):
+    """get_fields_for_exception plus the same-class helpers it (transitively) calls."""
     ctx = chk.ctx
     gf = ctx.func("_errors", "ErrorExtraction.get_fields_for_exception")
-    cfg = ctx.cfg(gf)
+    out = [gf]
+    todo = [gf]
+    while todo:
+        g = todo.pop()
+        for s in ctx.cg.sites.get(g, []):
+            for t in s.repo_targets():
+                if t.cls is gf.cls and t not in out:
+                    out.append(t)
+                    todo.append(t)
+    return gf, out
+
+
+def rule_mro(chk):
+    ctx = chk.ctx
+    gf, lookup = _lookup_funcs(chk)
     ename = [a.arg for a in gf.node.args.args][2]
-    loops = [n for n in cfg.live if n.kind == "for_next"]
-    chk.need(len(loops) == 1, "get_fields_for_exception: MRO loop not found")
-    head = loops[0]
-    it = head.ast.iter
-    txt = unparse(it)
-    ok_iter = False
-    if isinstance(it, ast.Call) and any(t.kind == "ext" and t.ref == "inspect.getmro" for t in ctx.cg.typer.resolve_call(gf, it)):
-        a = unparse(it.args[0]) if it.args else ""
-        ok_iter = a in ("%s.__class__" % ename, "type(%s)" % ename)
-    elif txt in ("%s.__class__.__mro__" % ename, "type(%s).__mro__" % ename, "%s.__class__.mro()" % ename, "type(%s).mro()" % ename):
-        ok_iter = True
-    chk.req(ok_iter, "C03.mro", "get_fields_for_exception:walks-the-MRO-in-order", chk.where(gf, head.lineno),
-            good="iterates %s" % txt, fail="extractor lookup iterates %s, not the exception class's MRO in order (nearest class must win)" % txt)
-    # first registered class returns: from the membership test's true edge the loop head is unreachable
-    lv = head.ast.target.id if isinstance(head.ast.target, ast.Name) else None
-    tests = [t for t in cfg.live if t.kind == "test" and isinstance(t.exprs[0], ast.Compare) and len(t.exprs[0].ops) == 1
-             and isinstance(t.exprs[0].ops[0], ast.In) and isinstance(t.exprs[0].left, ast.Name) and t.exprs[0].left.id == lv
-             and unparse(t.exprs[0].comparators[0]) == "self.registry"]
-    chk.need(tests, "get_fields_for_exception: registry membership test not found")
-    quiet = common.quiet_exc_edges(ctx, gf)
-    for t in tests:
-        starts = [s for s, l in t.succ if l == "true"]
-        r = cfg.reach(starts, avoid_edges=quiet)
-        chk.req(head not in r, "C03.mro", "get_fields_for_exception:nearest-class-wins", chk.where(gf, t.lineno),
-                good="the first registered class in MRO order decides (no path continues the loop)",
-                fail="after a registered class is found the loop can continue to a more distant base class")
-    # the extractor looked up is the one registered for that class and is applied to the exception
+    cls_exprs = ("%s.__class__" % ename, "type(%s)" % ename)
+    found = []
+    for g in lookup:
+        cfg = ctx.cfg(g)
+        for n in cfg.live:
+            if n.kind == "for_next":
+                it = n.ast.iter
+                arg = None
+                if isinstance(it, ast.Call) and any(t.kind == "ext" and t.ref == "inspect.getmro" for t in ctx.cg.typer.resolve_call(g, it)) and it.args:
+                    arg = it.args[0]
+                elif isinstance(it, ast.Attribute) and it.attr == "__mro__":
+                    arg = it.value
+                elif isinstance(it, ast.Call) and isinstance(it.func, ast.Attribute) and it.func.attr == "mro":
+                    arg = it.func.value
+                if arg is not None:
+                    found.append((g, cfg, n, arg))
+    chk.need(found, "extractor lookup: no loop over an MRO found in %s" % [g.fq for g in lookup])
+    for g, cfg, head, arg in found:
+        txt = unparse(arg)
+        ok_arg = False
+        if g is gf:
+            ok_arg = txt in cls_exprs
+        elif isinstance(arg, ast.Name) and arg.id in g.params and not stores_to_name(g, arg.id):
+            # helper: every call site in the lookup functions passes the exception's class
+            idx = [a.arg for a in g.node.args.args].index(arg.id) - 1
+            sites = [s for h in lookup for s in ctx.cg.sites[h] if g in s.repo_targets() and s.call is not None]
+            ok_arg = bool(sites) and all(len(s.call.args) > idx and unparse(s.call.args[idx]) in cls_exprs for s in sites if s.func is gf) \
+                and any(s.func is gf for s in sites)
+        chk.req(ok_arg, "C03.mro", "get_fields_for_exception:walks-the-MRO-in-order", chk.where(g, head.lineno),
+                good="iterates the MRO of %s in order" % txt, fail="extractor lookup iterates the MRO of %s, which is not the class of the exception that escaped (nearest class must win)" % txt)
+        lv = head.ast.target.id if isinstance(head.ast.target, ast.Name) else None
+        tests = [t for t in cfg.live if t.kind == "test" and isinstance(t.exprs[0], ast.Compare) and len(t.exprs[0].ops) == 1
+                 and isinstance(t.exprs[0].ops[0], ast.In) and isinstance(t.exprs[0].left, ast.Name) and t.exprs[0].left.id == lv
+                 and unparse(t.exprs[0].comparators[0]) == "self.registry"]
+        chk.need(tests, "extractor lookup: registry membership test not found in %s" % g.fq)
+        quiet = common.quiet_exc_edges(ctx, g)
+        for t in tests:
+            starts = [s for s, l in t.succ if l == "true"]
+            r = cfg.reach(starts, avoid_edges=quiet)
+            chk.req(head not in r, "C03.mro", "get_fields_for_exception:nearest-class-wins", chk.where(g, t.lineno),
+                    good="the first registered class in MRO order decides (no path continues the loop)",
+                    fail="after a registered class is found the loop can continue to a more distant base class")
+        # the extractor selected is the one registered for that class
+        regs = [x for x in iter_own_nodes(g.node) if isinstance(x, ast.Subscript) and unparse(x.value) == "self.registry" and isinstance(x.ctx, ast.Load)]
+        chk.req(bool(regs) and all(isinstance(x.slice, ast.Name) and x.slice.id == lv for x in regs), "C03.mro",
+                "get_fields_for_exception:extractor-of-that-class", chk.where(g, head.lineno), good="self.registry[%s]" % lv,
+                fail="the extractor used is not the one registered for the class found")
+    # no stale memoisation: state written on the lookup path must be fully invalidated on registration
+    cache_attrs = set()
+    for g in lookup:
+        for x in ast.walk(g.node):
+            if isinstance(x, ast.Attribute) and isinstance(x.ctx, (ast.Store, ast.Del)) and common.is_self_attr(x):
+                cache_attrs.add(x.attr)
+            if isinstance(x, ast.Subscript) and isinstance(x.ctx, (ast.Store, ast.Del)) and common.is_self_attr(x.value):
+                cache_attrs.add(x.value.attr)
+            if isinstance(x, ast.Call) and isinstance(x.func, ast.Attribute) and common.is_self_attr(x.func.value) and x.func.attr in ("setdefault", "update", "append", "add"):
+                cache_attrs.add(x.func.value.attr)
+    reg = gf.cls.find_method("register_exception_extractor")
+    for ca in sorted(cache_attrs):
+        full = False
+        if reg is not None:
+            for x in ast.walk(reg.node):
+                if isinstance(x, ast.Call) and isinstance(x.func, ast.Attribute) and x.func.attr == "clear" and common.is_self_attr(x.func.value, ca):
+                    full = True
+                if isinstance(x, ast.Assign) and any(common.is_self_attr(t, ca) for t in x.targets) and isinstance(x.value, (ast.Dict, ast.Call)):
+                    full = True
+        chk.req(full, "C03.mro", "get_fields_for_exception:lookup-not-stale(%s)" % ca, chk.where(gf),
+                good="lookup cache self.%s is cleared completely on every registration" % ca,
+                fail="the extractor lookup is memoised in self.%s but a registration does not clear it completely: after an extractor is registered for a nearer class, exceptions of already-seen subclasses still get the old (or no) extractor" % ca)
+    if not cache_attrs:
+        chk.ok("C03.mro", "get_fields_for_exception:lookup-not-stale", chk.where(gf), "the lookup keeps no state between failures")
     from . import c07
     sites = [s for f_, s, w in c07.core_sites(chk) if f_ is gf]
     for s in sites:
@@ -393,10 +452,6 @@ def rule_mro(chk):
         chk.req(len(c.args) == 1 and isinstance(c.args[0], ast.Name) and c.args[0].id == ename, "C03.mro",
                 "get_fields_for_exception:extractor-applied-to-the-exception", s.where,
                 good="extractor(%s)" % ename, fail="extractor is applied to %s" % unparse(c))
-        vals = assigned_values(gf, c.func.id)
-        chk.req(all(isinstance(v, ast.Subscript) and isinstance(v.slice, ast.Name) and v.slice.id == lv for v in vals), "C03.mro",
-                "get_fields_for_exception:extractor-of-that-class", s.where, good="self.registry[%s]" % lv,
-                fail="the extractor used is not the one registered for the class found")
 
 
 def rule_safeunicode(chk):
